@@ -10,6 +10,7 @@ import (
 )
 
 func TestC14(t *testing.T) {
+	runWitnesses(t, "C14")
 	col := ev.New("C14", "rapid state machine over memory.Sparse: stores of constant and symbolic values (value width "+
 		"<,=,> store width 1..32) at addresses in a 48-byte window (at 1000, at 0 and at 2^64-300, never wrapping) so "+
 		"that writes overlap partially, nest and abut; loads, Missing and Blocks queries on arbitrary sub-ranges. "+
